@@ -5,7 +5,7 @@ from engine import runner
 from checks import corpus, asserts
 
 
-def conc_family(name, existing, mk_reqs, targets):
+def conc_family(name, existing, mk_reqs, targets, retry_count=None):
     """generations under concurrency: k accepted writes move a generation
     forward by at least k, and no schedule moves one backwards"""
     import z3
@@ -21,7 +21,18 @@ def conc_family(name, existing, mk_reqs, targets):
     def path(ctx):
         app.setup()
         reqs = mk_reqs()
-        pre, results, final, sched, writes = conc.run_concurrent(ctx, wf, reqs)
+        if retry_count is not None:
+            # configuration dimension: the server-side retry budget for
+            # provider generation conflicts ([placement]
+            # allocation_conflict_retry_count, default 10)
+            app.set_conf('placement',
+                         allocation_conflict_retry_count=retry_count)
+        try:
+            pre, results, final, sched, writes = conc.run_concurrent(
+                ctx, wf, reqs)
+        finally:
+            if retry_count is not None:
+                app.set_conf('placement', allocation_conflict_retry_count=10)
         ok = [i for i, r in enumerate(results) if r.status < 400]
         ca, cb = _by_key(pre, 'consumers'), _by_key(final, 'consumers')
         pa, pb = _by_key(pre, 'resource_providers'), \
@@ -35,11 +46,12 @@ def conc_family(name, existing, mk_reqs, targets):
             obligation(ctx, 'generation-never-decreases',
                        z3.And(zbool(both), gb < ga),
                        'consumer generation decreased under concurrency')
+            nw = sum(1 for i in ok if targets[i] is not None)
             obligation(ctx, 'write-bumps-consumer-generation',
-                       z3.And(zbool(both), gb < ga + len(ok)),
+                       z3.And(zbool(both), gb < ga + nw),
                        '%d accepted writes moved the consumer generation '
-                       'forward by less than %d' % (len(ok), len(ok)),
-                       sig='k=%d' % len(ok))
+                       'forward by less than %d' % (nw, nw),
+                       sig='k=%d' % nw)
         for p in (1, 2):
             kk = (U(p),)
             ga = to_z3(_merged(pa[kk], 'generation')[1])
@@ -61,7 +73,15 @@ def families(tier):
             for s in corpus.shapes(tier)]
     fams.append(conc_family('existing/put+put', True, lambda: [
         c06.put(1, 1, 'int'), c06.put(2, 2, 'int')], {0: 1, 1: 2}))
+    from checks import c05
+    fams.append(conc_family('existing/put+put_invs/retry=1', True, lambda: [
+        c06.put(1, 1, 'int'), c05.put_invs(2)], {0: 1, 1: None},
+        retry_count=1))
     if tier == 'thorough':
+        fams.append(conc_family('existing/put+put_invs/retry=2', True,
+                                lambda: [c06.put(1, 1, 'int'),
+                                         c05.put_invs(2)], {0: 1, 1: None},
+                                retry_count=2))
         fams.append(conc_family('existing/put+post', True, lambda: [
             c06.put(1, 1, 'int'), c06.post(2, 1, 'int')], {0: 1, 1: 1}))
         fams.append(conc_family('new/put+put', False, lambda: [
